@@ -18,3 +18,6 @@ func init() { txh.PinJitter() }
 
 // TestWorker is the entry point of child processes (txh.RunJob); a no-op otherwise.
 func TestWorker(t *testing.T) { txh.WorkerMain() }
+
+// knownSnapshot: the recorded finding C02/inconsistent-snapshot-while-others-commit (see c02_known_test.go).
+var knownSnapshot = stats.Known("C02", "inconsistent-snapshot-while-others-commit")
